@@ -12,3 +12,5 @@ pub mod sym;
 mod c16;
 #[cfg(kani)]
 mod c15;
+#[cfg(kani)]
+mod c01;
